@@ -25,10 +25,17 @@ def canon(lines):
     return out
 
 
-def prior_session(rng, fens, n_go):
+TB_ROOTS = ["8/8/8/4k3/8/8/3QK3/8 w - - 0 1", "8/8/8/4k3/8/8/3RK3/8 b - - 0 1", "8/8/8/4k3/8/8/3QK3/7r w - - 0 1", "8/8/2b5/4k3/8/8/3QK3/8 w - - 0 1"]
+
+
+def with_clock(fen, hmc):
+    t = fen.split(); t[4] = str(hmc); return " ".join(t)
+
+
+def prior_session(rng, fens, n_go, probe_fens=()):
     """list of UCI commands forming a prior session with exactly n_go searches, every changed option reverted at the end"""
     cmds, revert = [], {}
-    defaults = {"MultiPV": 1, "UseNullMove": "true", "Contempt": 0, "UCI_AnalyseMode": "false", "Hash": 16, "Strength": 1000, "Threads": 1, "AnalysisAgeHash": "true"}
+    defaults = {"MultiPV": 1, "UseNullMove": "true", "Contempt": 0, "UCI_AnalyseMode": "false", "Hash": 8, "Strength": 1000, "Threads": 1, "AnalysisAgeHash": "true"}
     done = 0
     while done < n_go:
         x = rng.random()
@@ -37,12 +44,18 @@ def prior_session(rng, fens, n_go):
         elif x < 0.2:
             k = rng.choice(list(defaults))
             v = {"MultiPV": rng.choice([2, 3]), "UseNullMove": "false", "Contempt": rng.choice([-50, 30]), "UCI_AnalyseMode": "true",
-                 "Hash": rng.choice([1, 4]), "Strength": rng.choice([300, 900]), "Threads": 2, "AnalysisAgeHash": "false"}[k]
+                 "Hash": rng.choice([1, 16]), "Strength": rng.choice([300, 900]), "Threads": 2, "AnalysisAgeHash": "false"}[k]
             cmds.append(("cmd", f"setoption name {k} value {v}")); revert[k] = defaults[k]
         elif x < 0.26 and revert:
             k = rng.choice(list(revert)); cmds.append(("cmd", f"setoption name {k} value {revert.pop(k)}"))
         else:
             fen = rng.choice(fens)
+            z = rng.random()
+            if z < 0.25 and probe_fens:      # the probe's own board at other half-move clocks: exercises caches keyed coarser than the clock
+                hm = rng.choice([rng.randrange(31, 40), rng.randrange(31, 40), rng.randrange(40, 80), rng.randrange(0, 30), rng.randrange(80, 99)])
+                cmds.append(("go", with_clock(rng.choice(probe_fens), hm), f"go nodes {rng.choice([20000, 60000])}")); done += 1; continue   # node limit: depth limits explode when Strength is reduced
+            elif z < 0.33:                   # pawnless <=4-man root + unlimited search: builds the on-demand tablebase inside the hash table
+                cmds.append(("go", rng.choice(TB_ROOTS), "go infinite")); done += 1; continue
             y = rng.random()
             if y < 0.6: go = f"go depth {rng.randrange(1, 5)}"
             elif y < 0.8: go = f"go nodes {rng.choice([1, 50, 1000])}"
@@ -60,11 +73,12 @@ def run_session(args):
     res = {"probes": [], "error": None}
     try:
         eng.handshake()
+        eng.setoption("Hash", 8)
         for c in prior:
             if c[0] == "cmd":
                 eng.send(c[1])
             else:
-                eng.go(f"position fen {c[1]}", c[2], timeout=120, stop_after=0.02 if "infinite" in c[2] else None)
+                eng.go(f"position fen {c[1]}", c[2], timeout=120, stop_after=(0.6 if c[1] in TB_ROOTS else 0.02) if "infinite" in c[2] else None)
         if prior:
             eng.send("setoption name Clear Hash")
         eng.isready()
@@ -103,8 +117,10 @@ def run(ctx):
         fen = r.choice(fens)
         go = f"go depth {r.randrange(6, 9 if quick else 12)}" if r.random() < 0.7 else f"go nodes {r.choice([20000, 100000])}"
         probes.append((fen, go))
+    # one heavy probe: enough nodes for the replacement scheme (hence the used table size / index mapping) to matter at Hash 8
+    probes.append((r.choice(chessgen.SEED_FENS[1:11]), f"go nodes {400000 if quick else 1500000}"))
     nfresh = 2 * len(probes)          # every probe twice, each in its own freshly started process
-    jobs = [([], [p]) for p in probes for _ in range(2)] + [(prior_session(r, fens, n), probes) for n in lengths]
+    jobs = [([], [p]) for p in probes for _ in range(2)] + [(prior_session(r, fens, n, [p[0] for p in probes]), probes) for n in lengths]
     with cf.ThreadPoolExecutor(max(2, vlib.NCPU // 2)) as ex:
         res = list(ex.map(run_session, jobs))
     err = next((x["error"] for x in res[:nfresh] if x["error"]), None)
